@@ -300,12 +300,14 @@ def generate(contract, ov):
     return cx, obs, meta
 
 
-def verify_unit(contract, ov, timeout_ms=None, workers=1):
+def verify_unit(contract, ov, timeout_ms=None, workers=1, only_prop=None):
     ur = UnitResult(contract, ov)
     t0 = time.time()
     try:
         cx, obs, meta = generate(contract, ov)
         ur.source_sha, ur.paths, ur.lines = meta["sha"], meta["paths"], meta["lines"]
+        if only_prop is not None:
+            obs = [ob for ob in obs if only_prop in ob.props]
         ur.hints = sorted(set(cx.hints))
         ur.notes = list(cx.notes)
         from .pyvc import values as _values
@@ -323,7 +325,17 @@ def verify_unit(contract, ov, timeout_ms=None, workers=1):
             else:
                 bychain[ch] = [ob]
                 groups.append(bychain[ch])
-        ur.results = prove_groups(groups, axioms, timeout_ms or contract.timeout_ms, workers)
+        budget = timeout_ms or contract.timeout_ms
+        ur.results = prove_groups(groups, axioms, budget, workers)
+        # second chance: an obligation left undecided (solver timeout under load) is retried alone with a tripled budget
+        flat = [ob for g in groups for ob in g]
+        retry = [i for i, r in enumerate(ur.results) if r.status == "undecided"]
+        if retry and len(retry) <= 8:
+            again = prove_groups([[flat[i]] for i in retry], axioms, budget * 3, min(workers, len(retry)))
+            for i, r in zip(retry, again):
+                if r.status != "undecided":
+                    r.reason = (r.reason + "; " if r.reason else "") + "decided on the second attempt (tripled budget)"
+                    ur.results[i] = r
         if not obs:
             ur.undecided_reason = "no obligations generated"
     except Unsupported as e:
